@@ -342,6 +342,10 @@ def run_c13(ctx, spec, out):
             if st.get("status") == 0 and (not st.get("has_data") or st.get("last_error")):
                 v.violations.append(("property", case, "step %d (%s): the backend is reported up without data or with an error (has_data=%s, last_error=%r)" % (i, what, st.get("has_data"), st.get("last_error"))))
                 break
+            if a.get("ran") and a.get("err") == "" and st.get("status") == 0 and float(st.get("last_online_ago", 0)) > 0.01:
+                v.violations.append(("property", case, "step %d (%s): an update run succeeded and the backend is up, but its last successful contact is recorded %ss ago - the stale timeout will be counted from then"
+                                     % (i, what, st.get("last_online_ago"))))
+                break
             if a.get("err") and stale is not None and not st.get("last_online_zero") and float(st.get("last_online_ago", 0)) > stale and (st.get("status") != 2 or st.get("has_data")):
                 v.violations.append(("property", case, "step %d (%s): the contact failed %ss after the last successful one (StaleBackendTimeout %s) but the backend is not down / keeps its data: status=%s has_data=%s"
                                      % (i, what, st.get("last_online_ago"), stale, st.get("status"), st.get("has_data"))))
